@@ -110,19 +110,22 @@ theorem handles_follow_rename {s : State} (hI : Inv s) (g : Nat) (dict : List (N
 
 example : ((0, "a"), 0) ∈ exState.cols ∧ viewHandle (renamedState exState 0 exDict) 0 = .named "b" := by decide
 
-/-! ### every call on the columns of a dataframe is all-or-nothing -/
+/-! ### every call is all-or-nothing -/
 
-/-- Under the invariant, a call on the columns of a dataframe (create_*, df[n]=f, add, del, drop, delete_field, rename,
-    dataframe.copy, dataframe.move) that raises leaves both catalogues, all field objects and all data exactly as they
-    were — provided `dataframe.move` is not handed the left-over object of a column that was deleted earlier
-    (`Op.srcLinked`; such an object copies and then fails on `field.name`, see the report). -/
-theorem field_calls_all_or_nothing_partial {s : State} (hI : Inv s) (op : Op) (hf : op.fieldLevel = true)
-    (hz : op.srcLinked s) : ErrKeeps s (step .repaired s op) :=
-  field_ops_errKeeps hI op hf hz
+/-- Under the invariant, a call that raises — any call: on columns (create_*, df[n]=f, add, del, drop, delete_field, rename,
+    dataframe.copy/move) or on dataframes (create/require/copy/setitem/del/drop/delete/move) — leaves both catalogues, all
+    field objects and all data exactly as they were. The partial-failure points of the code (the h5 step after the
+    dictionary step or vice versa, the drop after the copy, a field copy inside a dataframe copy) are unreachable.
+    Only proviso: `dataframe.move` is not handed the left-over object of a column that was deleted earlier
+    (`Op.srcLinked`; such an object is copied and then `field.name` fails — outside the statement, mirrored by the model). -/
+theorem calls_all_or_nothing {s : State} (hI : Inv s) (op : Op) (hz : op.srcLinked s) : ErrKeeps s (step .repaired s op) :=
+  step_errKeeps hI op hz
 
-/- full statement (dataset-level calls not proved: their only partial-failure points are unreachable under `Inv`, as the
-   proof of `inv_step` shows case by case, but the lemma has not been assembled):
-theorem calls_all_or_nothing {s : State} (hI : Inv s) (op : Op) (hz : op.srcLinked s) : ErrKeeps s (step .repaired s op) -/
+/-- … so along every history a failing call is invisible. -/
+theorem failed_call_changes_nothing (ops : List Op) (op : Op) (hz : op.srcLinked (run .repaired State.init ops))
+    {e : Err} {s' : State} (h : step .repaired (run .repaired State.init ops) op = .err e s') :
+    s' = run .repaired State.init ops :=
+  calls_all_or_nothing (inv_all_histories ops) op hz e s' h
 
 example : (Op.moveField (.byHandle 0) 0 "y" "a_").fieldLevel = true ∧
     (step .repaired exState (.moveField (.byHandle 0) 0 "y" "a_")).isOk = false ∧
